@@ -928,14 +928,14 @@ open ZnVerif.Spec.ModuleSem (defsOf HasCycle)
 
 theorem loadModule_specB {files : Files} {mainSrc : ModuleSrc} {O : Oracle} {libs : Libs} {cf : Nat}
     (hO : OracleOK O) (hρ : ExportOrderOK O) :
-    ∀ f, LoadSpecB O files mainSrc libs (loadModule O files libs cf f)
+    ∀ f, LoadSpecB O files mainSrc libs (loadModule .repaired O files libs cf f)
   | 0 => by
     intro vm n m rest nm src imp _ _ _ _ _ _ _ _ _
     unfold loadModule; trivial
   | f + 1 => by
     intro vm n m rest nm src imp hS hL hC himp hname hreg hty hB hD
     unfold loadModule
-    cases hfind : finder files (parseLibName n) with
+    cases hfind : finder .repaired files (parseLibName n) with
     | panic => trivial
     | notFound => trivial
     | emptySrc => trivial
@@ -1059,7 +1059,7 @@ theorem loadModule_specB {files : Files} {mainSrc : ModuleSrc} {O : Oracle} {lib
       have hp := evalProgram_spec (libs := libs) (cf := cf) hO (loadModule_spec (libs := libs) (cf := cf) hO f) hS1 hL1 hC1
       have hpB := evalProgram_specB (libs := libs) (cf := cf) hO (loadModule_spec (libs := libs) (cf := cf) hO f)
         (loadModule_specB hO hρ f) hρ hS1 hL1 hC1 hB1 hD1 hsN impScope_new hexN
-      cases hr : evalProgram O libs cf (loadModule O files libs cf f) vm1 (namesOf vm).length s with
+      cases hr : evalProgram O libs cf (loadModule .repaired O files libs cf f) vm1 (namesOf vm).length s with
       | err e vm' => trivial
       | ok vm2 =>
         rw [hr] at hp hpB
@@ -1208,7 +1208,7 @@ structure FinalB (O : Oracle) (files : Files) (mainSrc : ModuleSrc) (libs : Libs
 
 theorem runWith_specB {files : Files} {mainSrc : ModuleSrc} {O : Oracle} {libs : Libs} {lf cf : Nat}
     (hO : OracleOK O) (hρ : ExportOrderOK O) :
-    match runWith O files libs lf cf mainSrc with
+    match runWith .repaired O files libs lf cf mainSrc with
     | .ok vm' => FinalB O files mainSrc libs vm'
     | .err _ _ => True := by
   obtain ⟨hS, hL, hC⟩ := start_invariants files mainSrc
@@ -1252,7 +1252,7 @@ theorem runWith_specB {files : Files} {mainSrc : ModuleSrc} {O : Oracle} {libs :
   unfold runWith
   dsimp only
   have e0 : (VM.init.allocateModule mainName).2 = 0 := rfl
-  change (match evalProgram O libs cf (loadModule O files libs cf lf) vmStart (VM.init.allocateModule mainName).2 mainSrc with
+  change (match evalProgram O libs cf (loadModule .repaired O files libs cf lf) vmStart (VM.init.allocateModule mainName).2 mainSrc with
     | .err e vm' => Res.err e vm'
     | .ok vm2 => match vm2.popFrame with
       | none => Res.err Err.panic vm2
@@ -1260,7 +1260,7 @@ theorem runWith_specB {files : Files} {mainSrc : ModuleSrc} {O : Oracle} {libs :
     | .ok vm' => FinalB O files mainSrc libs vm'
     | .err _ _ => True)
   rw [e0]
-  cases hr : evalProgram O libs cf (loadModule O files libs cf lf) vmStart 0 mainSrc with
+  cases hr : evalProgram O libs cf (loadModule .repaired O files libs cf lf) vmStart 0 mainSrc with
   | err e vm' => trivial
   | ok vm2 =>
     rw [hr] at hp hpB
